@@ -154,7 +154,7 @@ def body(ch, ctx):
         start = ch.choose("start", g[i0:i1])
         end = ch.choose("end", g)
         one = ch.choose("one", (True, False))
-        other_first = ch.flag("other_convention_first")
+        other_first = ch.choose("other_convention_first", (True, False))     # True first: the first time a worker meets a pair, the OTHER convention is asked first
         ctx.sample(lambda: dict(start=start, end=end, fmt=fmt, one=one, other_convention_first=other_first))
         other = "bed" if fmt == "gff" else "gff"
         if other_first:
